@@ -957,6 +957,33 @@ var injections7 = []injection{
 // ---- closures in generators / conditions (C13, C11, C01) ---------------------------------------------
 
 var closureInGeneratorShapes7 = []shape{
+	// unreachable statements after break / continue still count as uses of the variables they mention (go vet flags them,
+	// the compiler accepts them): dropping them must not leave a variable unused
+	{name: "dead-code-after-break-and-continue-is-the-only-use-of-a-variable", decls: `
+$GEN{$NG(a int)}{int}{
+	for i := 0; i < 3; i++ {
+		x := i * 2
+		$YIELD{i}
+		continue
+		tr.Ev(1, x)
+	}
+	y := a
+	for {
+		$YIELD{100 + a}
+		break
+		tr.Ev(2, y)
+		y++
+	}
+	for j := 0; j < 2; j++ {
+		z := j
+		if j == 1 {
+			break
+			tr.Ev(3, z)
+		}
+		$YIELD{200 + j}
+	}
+	$RET
+}`, entries: []*Entry{drive("$NG", "int", 1, [][]int{{0}, {2}})}},
 	// a three-clause loop WITHOUT a yield, written directly in a generator: it stays a native loop, so its variable is
 	// per-iteration (go >= 1.22 sources) like in any other function
 	{name: "per-iteration-variable-of-a-yield-free-loop-in-the-generator-itself", decls: `
